@@ -1,1 +1,162 @@
-fn main() { println!("stub"); }
+//! Statement-history driver (C39 DML on memory tables, C49 catalog + information schema).
+//!
+//! `vhist run --in hist.ndjson --out res.ndjson`
+//!
+//! One input line = one history, executed on ONE fresh `SessionContext`:
+//!   {"id":..,
+//!    "config":{"information_schema":bool,"target_partitions":n,"set":[["key","value"],..]},
+//!    "tables":[{"name":..,"cols":[{"name":..,"kind":"i|s|b"}],"parts":[[row,..],..],"batch_rows":n,"utf8view":bool}],
+//!    "steps":[{"sql":"...","obs":["SELECT ...",..]}]}
+//! A table is registered as a `MemTable` with exactly the given partitions (each split into batches of
+//! `batch_rows` rows, 0 = one batch per partition).  Every step's statement is executed through
+//! `SessionContext::sql(..).collect()`, then every observation query of the step.  Output line:
+//!   {"id":..,"steps":[{"ok":bool,"err":str|null,"panic":bool,"rows":[..],"obs":[{"ok","err","panic","rows","cols"}..]}]}
+//! Rows are value grids (see vcommon::sqlexec::value_at; strings outside the pool come back as
+//! {"k":"s","v":-1,"raw":text}).  The driver has no oracle: lib/c39.py / lib/c49.py compare every step with
+//! the TLA+ specification's expectation.
+use datafusion::datasource::MemTable;
+use datafusion::prelude::*;
+use futures::FutureExt;
+use serde_json::{Value, json};
+use std::panic::AssertUnwindSafe;
+use std::sync::Arc;
+use vcommon::sqlexec::{batches_to_rows, rows_to_batch, table_schema};
+use vcommon::util;
+
+fn make_ctx(h: &Value) -> Result<SessionContext, String> {
+    let c = &h["config"];
+    let mut cfg = SessionConfig::new();
+    if c["information_schema"].as_bool().unwrap_or(false) {
+        cfg = cfg.with_information_schema(true);
+    }
+    if let Some(n) = c["target_partitions"].as_u64() {
+        cfg = cfg.with_target_partitions(n as usize);
+    }
+    if let Some(sets) = c["set"].as_array() {
+        for kv in sets {
+            let (k, v) = (kv[0].as_str().unwrap(), kv[1].as_str().unwrap());
+            cfg.options_mut().set(k, v).map_err(|e| format!("config {k}={v}: {e}"))?;
+        }
+    }
+    let ctx = SessionContext::new_with_config(cfg);
+    if let Some(ts) = h["tables"].as_array() {
+        for t in ts {
+            let u8v = t["utf8view"].as_bool().unwrap_or(false);
+            let schema = table_schema(t, u8v);
+            let br = t["batch_rows"].as_u64().unwrap_or(0) as usize;
+            let mut parts = vec![];
+            for p in t["parts"].as_array().unwrap() {
+                let rows: Vec<&Value> = p.as_array().unwrap().iter().collect();
+                let mut batches = vec![];
+                if rows.is_empty() {
+                    // an empty partition has no batches
+                } else if br == 0 {
+                    batches.push(rows_to_batch(t, &schema, &rows, u8v));
+                } else {
+                    for ch in rows.chunks(br) {
+                        batches.push(rows_to_batch(t, &schema, ch, u8v));
+                    }
+                }
+                parts.push(batches);
+            }
+            let mt = MemTable::try_new(schema, parts).map_err(|e| e.to_string())?;
+            ctx.register_table(t["name"].as_str().unwrap(), Arc::new(mt)).map_err(|e| e.to_string())?;
+        }
+    }
+    Ok(ctx)
+}
+
+async fn exec(ctx: &SessionContext, sql: &str) -> Value {
+    let fut = async {
+        let df = ctx.sql(sql).await.map_err(|e| format!("plan: {e}"))?;
+        let cols: Vec<String> = df.schema().fields().iter().map(|f| f.name().clone()).collect();
+        let types: Vec<String> = df.schema().fields().iter().map(|f| f.data_type().to_string()).collect();
+        let batches = df.collect().await.map_err(|e| format!("exec: {e}"))?;
+        Ok::<_, String>((cols, types, batches_to_rows(&batches)))
+    };
+    match AssertUnwindSafe(fut).catch_unwind().await {
+        Ok(Ok((cols, types, rows))) => json!({"ok":true,"err":null,"panic":false,"rows":rows,"cols":cols,"types":types}),
+        Ok(Err(e)) => json!({"ok":false,"err":e,"panic":false,"rows":[]}),
+        Err(p) => {
+            let msg = p.downcast_ref::<String>().cloned().or_else(|| p.downcast_ref::<&str>().map(|s| s.to_string())).unwrap_or_default();
+            json!({"ok":false,"err":format!("panic: {msg}"),"panic":true,"rows":[]})
+        }
+    }
+}
+
+async fn logical_plan_text(ctx: &SessionContext, sql: &str) -> String {
+    let fut = async {
+        let state = ctx.state();
+        let plan = state.create_logical_plan(sql).await.map_err(|e| format!("plan: {e}"))?;
+        let opt = state.optimize(&plan).map_err(|e| format!("optimize: {e}"))?;
+        Ok::<_, String>(format!("{}", opt.display_indent()))
+    };
+    match AssertUnwindSafe(fut).catch_unwind().await {
+        Ok(Ok(s)) => s,
+        Ok(Err(e)) => format!("error: {e}"),
+        Err(_) => "panic".to_string(),
+    }
+}
+
+async fn run_history(h: &Value) -> Value {
+    let ctx = match make_ctx(h) {
+        Ok(c) => c,
+        Err(e) => return json!({"id":h["id"],"setup_err":e,"steps":[]}),
+    };
+    let mut out = vec![];
+    for st in h["steps"].as_array().unwrap() {
+        // optional: the optimized logical plan of the statement (no physical planning, hence no side effect)
+        let lplan = if st["plan"].as_bool().unwrap_or(false) { Some(logical_plan_text(&ctx, st["sql"].as_str().unwrap()).await) } else { None };
+        let mut r = exec(&ctx, st["sql"].as_str().unwrap()).await;
+        if let Some(lp) = lplan {
+            r["lplan"] = Value::String(lp);
+        }
+        let mut obs = vec![];
+        if let Some(qs) = st["obs"].as_array() {
+            for q in qs {
+                obs.push(exec(&ctx, q.as_str().unwrap()).await);
+            }
+        }
+        r["obs"] = Value::Array(obs);
+        out.push(r);
+    }
+    json!({"id":h["id"],"steps":out})
+}
+
+fn run_main() {
+    let inp = util::arg("--in").expect("--in");
+    let outp = util::arg("--out").expect("--out");
+    let threads: usize = util::arg("--threads").and_then(|s| s.parse().ok()).unwrap_or(2);
+    let hs = util::read_ndjson(&inp);
+    // silence panic messages of the code under test (they are data)
+    std::panic::set_hook(Box::new(|_| {}));
+    let rt = tokio::runtime::Builder::new_multi_thread().worker_threads(threads).enable_all().build().unwrap();
+    let mut res = vec![];
+    let (mut stmts, mut failed, mut panics) = (0usize, 0usize, 0usize);
+    for h in &hs {
+        let r = rt.block_on(run_history(h));
+        for s in r["steps"].as_array().unwrap() {
+            stmts += 1 + s["obs"].as_array().map(|o| o.len()).unwrap_or(0);
+            if s["ok"] == false {
+                failed += 1;
+            }
+            if s["panic"] == true {
+                panics += 1;
+            }
+        }
+        res.push(r);
+    }
+    util::write_ndjson(&outp, &res);
+    util::summary(json!({"histories":hs.len(),"statements":stmts,"failed_steps":failed,"panics":panics}));
+}
+
+fn main() {
+    let a: Vec<String> = std::env::args().collect();
+    match a.get(1).map(|s| s.as_str()).unwrap_or("") {
+        "run" => run_main(),
+        _ => {
+            eprintln!("usage: vhist run --in hist.ndjson --out res.ndjson [--threads N]");
+            std::process::exit(2);
+        }
+    }
+}
